@@ -476,12 +476,16 @@ def c07(case, lines):
         if k == "bad" and not s.startswith("bad-op"): fails.append(f"harness: {s}")
         if k != "sess": continue
         for o in s.ops:
-            entered = []
+            # no task is entered while it is still executing (C07_no_reentry_*, C07_bu_no_reentry_*: `NoReentry`).  Two
+            # executions one after the other in one bottom-up build are C04's subject (finding K7), not a re-entry.
+            stack = []
             for t in o.tl:
-                if t.startswith("enter "):
-                    x = t.split(" ")[1]
-                    if x in entered: fails.append(f"session {i} '{o.text}': task {x} entered twice in one build")
-                    entered.append(x)
+                w = t.split(" ")
+                if w[0] == "enter":
+                    if w[1] in stack: fails.append(f"session {i} '{o.text}': task {w[1]} entered while it is still executing (stack {stack})")
+                    stack.append(w[1])
+                elif w[0] == "exit" and stack and stack[-1] == w[1]:
+                    stack.pop()
             if case.meta.get("expect_cyclic") and o.text.startswith("req ") and int(o.text[4:]) in case.meta["expect_cyclic"]:
                 if o.result not in ("abort cyclic", "skipped"):
                     fails.append(f"session {i} '{o.text}': the require structure contains a cycle through this task but the build ended with '{o.result}'")
